@@ -60,6 +60,9 @@ def body_of(kind):
     """(wire body bytes, decoded bytes, content-encoding or None)"""
     if kind == 'big':
         return _pattern(9500), _pattern(9500), None
+    if kind == 'huge':
+        # longer than the 65536-byte copy buffer of the WARC writer
+        return _pattern(70001), _pattern(70001), None
     if kind == 'biggz':
         raw = _noise(3000) + _pattern(3000) + _noise(3000)
         return _gzip(raw), raw, 'gzip'
